@@ -165,6 +165,37 @@ def run(ctx):
                     check_query(ctx, ix, lst, ix.fmt, sec + "-format", use_file=nq % 4 == 0)
         if ctx.out_of_time(budget):
             break
+    # text variants: byte offsets differ from character counts (UTF-8 read names / Z values), Z values with blanks, CR LF line ends
+    # (added after seeded changes C04-5 and C04-6)
+    n_tv = 2 if ctx.quick else 12
+    ctx.bound("text variants: %d graphs x {multi-byte UTF-8 read names, Z values with blanks and UTF-8, CR LF line ends} x plain text and BGZF, "
+              "unstable and stable, 3-12 records; whole file + the node lists of the main section, with and without --format" % n_tv)
+    for ti in range(n_tv):
+        g = V.random_graph(rng, hap_mode="separated")
+        d = ctx.dir("c04text")
+        gfa = V.write_graph(d, g)
+        for stable in (False, True):
+            recs = V.make_records(g, rng, rng.choice([3, 5, 12]), stable)
+            variants = {
+                "utf8-read-name": ([["r\u00e9ad\u4e2d%d" % i] + list(r[1:]) for i, r in enumerate(recs)], "\n"),
+                "z-value-with-blanks": ([list(r) + ["co:Z:mapped with caf\u00e9 0.%d \u2713" % i, "rg:Z:sample %d" % i] for i, r in enumerate(recs)], "\n"),
+                "crlf": ([list(r) for r in recs], "\r\n"),
+            }
+            for vname, (vrecs, eol) in variants.items():
+                for bg in (False, True):
+                    gf = V.GafFile(os.path.join(d, "%s-%s.gaf%s" % (vname, "s" if stable else "u", ".gz" if bg else "")), g, vrecs, bg, eol=eol)
+                    try:
+                        ix = Indexed(d, g, gfa, gf)
+                    except BaseException as e:  # noqa
+                        ctx.case("index", _fkey(gf))
+                        ctx.fail("index", "gaftools index raised %s: %s on a %s file" % (type(e).__name__, e, vname), gf.to_case(nodes=[], format=None))
+                        continue
+                    check_whole(ctx, ix, use_file=bg)
+                    for lst in node_lists(rng, g, gf, True)[:14]:
+                        nq += 1
+                        check_query(ctx, ix, lst, None, "text-variants", use_file=nq % 3 == 0)
+                        if nq % 3 == 1:
+                            check_query(ctx, ix, lst, ix.fmt, "text-variants-format", use_file=nq % 4 == 0)
     # one large BGZF file
     g = V.random_graph(rng, hap_mode="separated")
     d = ctx.dir("c04big")
